@@ -56,12 +56,28 @@ Theorem C06_sent_justified : forall w st e st' r c clid o,
 Proof. exact sent_justified. Qed.
 Print Assumptions C06_sent_justified.
 
-(* name lookup yields only registered objects (or what a registered lookup handler provides) *)
+(* name lookup yields only registered objects, or what the application's lookup handler serves at that moment *)
 Theorem C06_names : forall w st n o,
   lookup_name w st n = Some o ->
-  In (n, o) (s_n2r st) \/ (sget n (s_n2r st) = None /\ w_handler w n = Some o).
+  In (n, o) (s_n2r st) \/ (sget n (s_n2r st) = None /\ sget n (s_h st) = Some o).
 Proof. exact names_sound. Qed.
 Print Assumptions C06_names.
+
+(* ... where, over all histories, every entry of the name table was put there by registerReference or by the first send of
+   the object (its unguessable URL); a handler's answer never enters the table (translated: handler_answers_cached = false) *)
+Theorem C06_names_origin : forall w h st n o,
+  In (n, o) (s_n2r (fst (run w st h))) -> In (n, o) (s_n2r st) \/ exists e, In e h /\ names_event n o e.
+Proof. exact names_origin. Qed.
+Print Assumptions C06_names_origin.
+
+(* ... so a name that was only ever served by a handler stops resolving -- on every connection -- as soon as the handler
+   stops serving it (Revoke / HandlerOff), however often it was looked up before and although the object is still alive *)
+Theorem C06_revoked_name_refused : forall w h st n,
+  st = fst (run w init h) -> n <> ""%string ->
+  (forall e, In e h -> forall o, ~ names_event n o e) -> sget n (s_h st) = None ->
+  lookup_name w st n = None.
+Proof. exact revoked_name_refused. Qed.
+Print Assumptions C06_revoked_name_refused.
 
 (* "unguessable": names the Tub invents carry NAMEBITS (translated: 160) >= 128 bits *)
 Theorem C06_swissnum_bits : 128 <= NAMEBITS.
@@ -75,7 +91,9 @@ Theorem C06_classes : forall w st c req clid m args st' r cls,
 Proof. exact classes_sound. Qed.
 Print Assumptions C06_classes.
 
-(* ... where the registry holds what importing foolscap registered (translated key set) and what registerRemoteCopy added *)
+(* ... where the registry holds what importing foolscap registered (translated key set) and what registerRemoteCopy added to
+   the GLOBAL registry: a registration into a private registry (RegisterCopyPriv, also an empty one) never gets there
+   (translated default-registry test: DefaultIfNone) *)
 Theorem C06_registry_origin : forall w h n cls,
   sget n (s_copy (fst (run w init h))) = Some cls -> In n copyable_names \/ In (RegisterCopy n cls) h.
 Proof.
